@@ -597,6 +597,18 @@ def _ext_table(f):
                             calls.add(sub.id)
                         if isinstance(sub, ast.Attribute) and isinstance(sub.ctx, ast.Load):
                             calls.add(sub.attr)
+                # helpers defined inside f (or in its module) that are called here: what THEY call / mention counts too
+                local_defs = {x.name: x for x in ast.walk(f.node) if isinstance(x, ast.FunctionDef) and x is not f.node}
+                local_defs.update({k: v.node for k, v in f.module.functions.items() if k not in local_defs})
+                for nm in list(calls):
+                    d = local_defs.get(nm)
+                    if d is not None:
+                        for sub in ast.walk(d):
+                            if isinstance(sub, ast.Call):
+                                calls.add(sub.func.attr if isinstance(sub.func, ast.Attribute) else (
+                                    sub.func.id if isinstance(sub.func, ast.Name) else ''))
+                            if isinstance(sub, ast.Name) and isinstance(sub.ctx, ast.Load):
+                                calls.add(sub.id)
                 for e in exts:
                     table.setdefault(e.lstrip('.'), set()).update(calls)
     return table
@@ -607,7 +619,8 @@ def _extensions(ctx) -> list[Inst]:
     insts = []
     save = prog.func('save_dict_to_file')
     st = _ext_table(save)
-    loaders = [('Model.load_from_file', ('C07',)), ('AttackGraph.load_from_file', ('C10',))]
+    loaders = [('Model.load_from_file', ('C07',)), ('AttackGraph.load_from_file', ('C10',)),
+               ('load_model_from_version_0_0_39', ('C18',))]
     for ext, calls in sorted(st.items()):
         fam = 'yaml' if ext in ('yml', 'yaml') else ext
         ok = any(fam in c for c in calls)
@@ -636,7 +649,8 @@ def _extensions(ctx) -> list[Inst]:
                 file=lf.module.relpath, line=lf.node.lineno, props=props))
         for ext, calls in sorted(lt.items()):
             fam = 'yaml' if ext in ('yml', 'yaml') else ext
-            ok = any(fam in c for c in calls)
+            libs = {c for c in calls if c in ('json', 'yaml')}
+            ok = (fam in libs) if libs else any(fam in c for c in calls)
             insts.append(Inst(RULE, ln, f'(vi) .{ext} loaded through the {fam} reader',
                               'ok' if ok else 'violation',
                               msg='' if ok else f'.{ext} dispatches to {sorted(calls)}',
